@@ -364,7 +364,7 @@ def gen_prep_cases(rng, tier):
         bits = [rng.randint(0, 1) for _ in range(n)]
         add({"t": rng.choice(["BasisState", "BasisEmbedding"]), "wires": labels(rng, n), "bits": bits, "as_array": rng.random() < 0.5, "desc": "bits"})
     for _ in range(8 * k):           # Superposition
-        n = rng.choice([1, 2, 2, 3, 3, 4])
+        n = rng.choice([1, 2, 2, 3, 3, 4] if big else [1, 2, 2, 3, 3])
         m = rng.randint(1 if n == 1 else 2, min(2 ** n, 6 if big else 5))
         idx = rng.sample(range(2 ** n), m)
         if rng.random() < 0.3:
@@ -377,7 +377,7 @@ def gen_prep_cases(rng, tier):
     for _ in range(7 * k):           # QROMStatePreparation
         n = rng.choice([1, 2, 2, 3] if big else [1, 2, 2])
         v, kind, d = gen_state(rng, g, n, force=rng.choice([0.1, 0.4, 0.85, 0.95]))
-        m = rng.randint(2, 4)
+        m = rng.randint(2, 4 if big else 3)
         W = labels(rng, n)
         P = aux_labels(rng, "p", m, W)
         Wk = [f"wq{i}" for i in range(rng.randint(0, 2))]
@@ -405,7 +405,7 @@ def gen_prep_cases(rng, tier):
              "desc": f"bonds={bonds},canonical={canonical}"})
     for _ in range(8 * k):           # sparse preparations
         n = rng.choice([1, 2, 3, 3, 4])
-        D = rng.randint(1, min(2 ** n, 5 if not big else 6))
+        D = rng.randint(1, min(2 ** n, 4 if not big else 6))
         idx = rng.sample(range(2 ** n), D)
         co = haar(g, D, real=rng.random() < 0.3).astype(complex)
         W = labels(rng, n)
@@ -605,7 +605,18 @@ def run(ctx):
     pre = gen_pre_cases(rng, 300 if quick else 2500)
     prep = gen_prep_cases(rng, ctx.tier)
     t0 = time.time()
-    out = ctx.run_impl("c57_impl.py", {"prep": prep, "basis": basis, "pre": pre, "names": NAMES}, timeout=3000)
+    # the driver is run as 4 concurrent processes: discrete observables, and three interleaved slices of the
+    # numerical validation cases
+    from concurrent.futures import ThreadPoolExecutor
+    NPAR = 3
+    payloads = [{"basis": basis, "pre": pre, "names": NAMES}] + [{"prep": prep[i::NPAR]} for i in range(NPAR)]
+    with ThreadPoolExecutor(max_workers=NPAR + 1) as ex:
+        parts = list(ex.map(lambda pl: ctx.run_impl("c57_impl.py", pl, timeout=3000), payloads))
+    out = {"basis": parts[0]["basis"], "pre": parts[0]["pre"], "present": parts[0]["present"], "prep": [None] * len(prep), "timing": {}}
+    for i in range(NPAR):
+        out["prep"][i::NPAR] = parts[1 + i]["prep"]
+        for kk, vv in parts[1 + i]["timing"].items():
+            out["timing"][kk] = round(out["timing"].get(kk, 0.0) + vv, 2)
     t_impl = time.time() - t0
 
     for nm, ok in out["present"].items():
